@@ -30,7 +30,12 @@ pub fn run_enumeration(which: &str, id: &str, thorough: bool, seed: u64, out: &m
         "boot-matrix" => boot_matrix(out),
         "fallback-table" => fallback_table(out),
         "names" => names(seed, thorough, out),
-        "stateless-threads" => stateless_threads(seed, thorough, out),
+        "stateless-threads" => {
+            stateless_threads(seed, thorough, out);
+            if thorough || std::env::var("VERIF_MIRI").is_ok() {
+                miri_threads(seed, out);
+            }
+        },
         _ => out.harness_errors.push(format!("unknown enumeration {which} for {id}")),
     }
 }
@@ -470,4 +475,45 @@ fn stateless_threads(seed: u64, thorough: bool, out: &mut EnumOut) {
     out.distinct += configs as u64;
     *out.probes.entry("shuttle-schedules-executed").or_insert(0) += total_schedules;
     out.summary.push(json!({"enumeration": "stateless-threads (shuttle, call-granular interleavings of 6 threads on two shared stateless sessions)", "configs": configs, "schedules": total_schedules, "schedulers": ["random", "pct(depth 3)"]}));
+}
+
+/// C16 layer (c), thorough tier: 3 real threads with preemptive seeded scheduling and data-race
+/// detection under Miri (default backend only; ring is C/asm and cannot run under Miri).
+fn miri_threads(seed: u64, out: &mut EnumOut) {
+    let seeds = 24u64;
+    let lo = (seed % 1000) * 100;
+    let mut total = 0u64;
+    for name in ["Noise_NN_25519_ChaChaPoly_BLAKE2s", "Noise_NN_25519_AESGCM_SHA256"] {
+        let flags = format!("-Zmiri-many-seeds={}..{} -Zmiri-preemption-rate=0.1", lo, lo + seeds);
+        let res = std::process::Command::new("cargo")
+            .args(["+nightly", "miri", "run", "--offline", "--", name])
+            .current_dir("/verif/sim-miri")
+            .env("MIRIFLAGS", &flags)
+            .env("CARGO_NET_OFFLINE", "true")
+            .output();
+        match res {
+            Err(e) => out.harness_errors.push(format!("cannot run miri: {e}")),
+            Ok(o) => {
+                let text = format!("{}\n{}", String::from_utf8_lossy(&o.stdout), String::from_utf8_lossy(&o.stderr));
+                let oks = text.matches("miri-threads ok").count() as u64;
+                total += oks;
+                if !o.status.success() || oks != seeds {
+                    let path = format!("/verif/replays/C16-miri-{}-{}.log", seed, name);
+                    let _ = std::fs::create_dir_all("/verif/replays");
+                    let _ = std::fs::write(&path, format!("MIRIFLAGS={flags}\ncd /verif/sim-miri && cargo +nightly miri run --offline -- {name}\n\n{text}"));
+                    if text.contains("differs under concurrency") || text.contains("Data race") || text.contains("data race") || text.contains("wrong nonce accepted") || text.contains("thread panicked") {
+                        out.viol.push((
+                            Violation { prop: "C16".into(), clause: "miri-threads".into(), site: "miri-preemptive".into(), detail: format!("{name}: {oks}/{seeds} seeds passed; output saved in {path}"), op_index: 0 },
+                            None,
+                        ));
+                    } else {
+                        out.harness_errors.push(format!("miri run failed without a property assertion ({oks}/{seeds} ok); see {path}"));
+                    }
+                }
+            },
+        }
+    }
+    out.evaluations += total;
+    *out.probes.entry("miri-seeds-executed").or_insert(0) += total;
+    out.summary.push(json!({"enumeration": "stateless-threads under Miri (3 preemptively scheduled threads, data-race detection, default backend)", "seeds": total, "seed_range_start": lo}));
 }
